@@ -144,6 +144,9 @@ func run(id string, c cfg, tier string, seed int64, replay string) int {
 				"VERIF_TIER="+tier, "VERIF_SEED="+strconv.FormatInt(seed, 10),
 				"VERIF_SHARD="+strconv.Itoa(i), "VERIF_NSHARDS="+strconv.Itoa(shards),
 				"VERIF_OUT="+out, "VERIF_REPLAY="+replay, "VERIF_DIR="+root())
+			if c.Race {
+				p.Env = append(p.Env, "GORACE=log_path="+filepath.Join(partDir, fmt.Sprintf("race%d", i))+" halt_on_error=0")
+			}
 			logf, _ := os.Create(filepath.Join(partDir, fmt.Sprintf("log%d.txt", i)))
 			p.Stdout, p.Stderr = logf, logf
 			done := make(chan error, 1)
@@ -266,6 +269,34 @@ func run(id string, c cfg, tier string, seed int64, replay string) int {
 		}
 	}
 	viols = append(viols, fuzzViol...)
+	if c.Race {
+		// data race reports written by the race runtime: each shard's first report becomes a violation
+		files, _ := filepath.Glob(filepath.Join(partDir, "race*.*"))
+		sort.Strings(files)
+		for _, f := range files {
+			b, err := os.ReadFile(f)
+			if err != nil || !strings.Contains(string(b), "DATA RACE") {
+				continue
+			}
+			dst := filepath.Join(root(), "replays", id, fmt.Sprintf("race-%s-seed%d-%s.txt", tier, seed, filepath.Base(f)))
+			os.MkdirAll(filepath.Dir(dst), 0o755)
+			os.WriteFile(dst, b, 0o644)
+			msg := string(b)
+			if i := strings.Index(msg, "WARNING: DATA RACE"); i >= 0 {
+				msg = msg[i:]
+			}
+			var keep []string
+			for _, l := range strings.Split(msg, "\n") {
+				if strings.Contains(l, "DATA RACE") || strings.Contains(l, "gozxing") || strings.HasPrefix(l, "Previous") || strings.HasPrefix(l, "Write") || strings.HasPrefix(l, "Read") {
+					keep = append(keep, strings.TrimSpace(l))
+				}
+				if len(keep) >= 10 {
+					break
+				}
+			}
+			viols = append(viols, hx.Violation{Sub: "race_detector", Kind: "race_report", Replay: dst, Msg: strings.Join(keep, "\n")})
+		}
+	}
 	// suspected hangs are re-run alone, in a fresh process with a 120 s limit; only a second expiry counts
 	if replay == "" {
 		kept := viols[:0]
